@@ -63,5 +63,15 @@ Definition site_status : list (string * string * string) :=
     ("analysis/stateful_tokenizer.rs", "unwrap", "reviewed (swap_result: C10 failed_analysis_usable; oov_providers.last(): NoOOVPluginProvided at load)");
     ("input_text/buffer/mod.rs", "index_expr", "proved for the 13 brackets of to_orig_byte_idx, to_orig_char_idx, to_curr_byte_idx, curr_slice_c, orig_slice, to_orig, ch_idx: C03_accessors_no_index_panic / C03_resolve_node_ok / C03_chain_accessors_ok (tables of Proofs/AccessorSitesClassified.v); proved in C08 for orig_slice_c / curr_slice; reviewed: build(), commit(), the category accessors");
     ("input_text/buffer/mod.rs", "debug_assert", "proved for to_orig_char_idx (res != usize::MAX) and the two boundary assertions of orig_slice: C03_accessors_no_index_panic; reviewed: the RW/RO state assertions");
+    ("analysis/lattice.rs", "arithmetic (i32 +)", "proved under the cost bound: C03_lattice_never_panics_debug (the two lattice models agree: C03_lattice_models_agree)");
+    ("analysis/node.rs", "index_expr", "proved: the 20 brackets of concat_nodes / concat_oov_nodes (C03_concat_no_panic) and self.splits[idx] (guarded); the ch_idx index of NodeSplitIterator::next: C03_split_panics_only_on_ill_formed_units");
+    ("analysis/node.rs", "unwrap", "reviewed: get_word_info_subset of split ids validated by the dictionary compiler (C06)");
+    ("analysis/node.rs", "panic_macro", "reviewed: Mode::C never reaches ResultNode::split (split_path returns first)");
+    ("analysis/node.rs", "narrowing_cast", "reviewed: positions <= 65535 (C03_positions_fit_u16)");
+    ("input_text/buffer/edit.rs", "index_expr", "proved: all 6 brackets, C03_resolve_edits_no_index_panic");
+    ("input_text/buffer/mod.rs", "index_expr (build)", "proved: self.mod_bow[bidx] and the two usize subtractions of build(): C03_build_writes_in_range; reviewed: fill_cat_continuity / fill_orig_b2c (loop-bounded)");
+    ("dic/lexicon/trie.rs", "debug_assert / get_unchecked", "proved for certified arrays: C03_trie_reader_no_index_panic; open for arrays the loader accepts unchecked: finding c03_damaged_dictionary");
+    ("dic/lexicon/trie.rs", "unwrap", "proved by the loop range (self.data.get(i) with i in offset..data.len())");
+    ("dic/lexicon/word_id_table.rs", "debug_assert", "proved for builder-written tables: C03_wid_table_reader_no_index_panic; open for tables the loader accepts unchecked: finding c03_damaged_dictionary");
     ("dic/connect.rs", "debug_assert", "proved for the lattice's calls: C03_conn_cost_in_table (ids below the dimensions: C20_accepted_config_index_safe)");
     ("dic/connect.rs", "get_unchecked", "proved for the lattice's calls: C03_conn_cost_in_table") ].
